@@ -21,6 +21,7 @@ import SwcVerif.Model.AlgoRunSubtree
 import SwcVerif.Model.AlgoRunPopulation
 import SwcVerif.Model.AlgoRunNormalizer
 import SwcVerif.Model.AlgoRunBranches
+import SwcVerif.Model.AlgoRunRedirect
 import SwcVerif.Model.Assemble
 
 def dispatch (op : String) (args : List String) : String :=
@@ -61,6 +62,7 @@ def dispatch (op : String) (args : List String) : String :=
   | "gtosub" => AlgoRun.handleToSub args
   | "glazy" => AlgoRun.handleLazy args
   | "gchain" => AlgoRun.handleChain args
+  | "gredirect" => AlgoRun.handleRedirect args
   | "asm" => Asm.handle args
   | "swcline" => SwcText.handleLine args
   | "swcread" => SwcText.handleRead args
